@@ -5,7 +5,7 @@ from concurrent.futures import ThreadPoolExecutor
 
 VERIF = os.path.dirname(os.path.dirname(os.path.abspath(__file__)))
 TOOLS = os.path.join(VERIF, 'tools')
-WORK = os.path.join(VERIF, '.work')
+WORK = os.environ.get('VF_WORK') or os.path.join(VERIF, '.work')
 REPO = os.environ.get('VF_REPO', '/repo')
 INCLUDE = os.path.join(REPO, 'include')
 NCPU = int(os.environ.get('VF_JOBS', '16'))
@@ -200,7 +200,8 @@ def find_fn(info, pattern, among=None):
     return sorted(out)
 
 
-def reachable(info, start):
+def reachable(info, start, stop=()):
+    """functions reachable from start; callees of functions in `stop` (replaced by their contract) are not followed"""
     seen = set()
     stack = [start]
     while stack:
@@ -208,6 +209,8 @@ def reachable(info, start):
         if c in seen:
             continue
         seen.add(c)
+        if c in stop:
+            continue
         for d in info['functions'].get(c, {}).get('calls', []):
             stack.append(d)
     return seen
@@ -246,6 +249,12 @@ def weave(job, cpath, info, outdir, witness_mode=False):
                 continue      # witness search: run the real callee body instead of its contract
             contracts[cn] = c
             replaced.append(cn)
+    # what lies behind a replaced call is not part of this proof
+    reach = reachable(info, entry, stop=set(replaced))
+    for cn in list(contracts):
+        if cn != entry and cn not in reach:
+            del contracts[cn]
+            replaced.remove(cn)
     # every bodiless function reachable from the entry needs a contract; library functions on opaque library
     # objects (std::string and friends, demangle) get the trusted default contract "touches only its own opaque objects"
     trusted = []
